@@ -823,6 +823,7 @@ type dedupItem struct {
 	UpperMask uint64 // which owner letters are upper-cased
 	EscMask   uint64 `json:",omitempty"` // which owner letters are written with a backslash in front (\A): the record is program-built with that spelling
 	SameAs    int    `json:",omitempty"` // > 0: not a new record but the very record (same pointer) at position SameAs-1 again
+	NoOwner   bool   `json:",omitempty"` // the record is program-built and its owner was never set (Hdr.Name == "": the text starts with the tab)
 }
 
 func ownerVariant(n wm.Name, mask uint64) wm.Name {
@@ -842,6 +843,9 @@ func ownerVariant(n wm.Name, mask uint64) wm.Name {
 	}
 	return o
 }
+
+// idNoOwner: known finding - Dedup on records without an owner name keeps the TTL in its key and drops the class.
+const idNoOwner = "dedup-absent-owner"
 
 // idEscCase: known finding - Dedup does not fold an owner letter that is written with a backslash in front.
 const idEscCase = "dedup-escaped-letter-case"
@@ -901,6 +905,7 @@ func dedupOracle(c dedupCase, quiet bool) error {
 	var in []dns.RR
 	escaped := false
 	shared := false
+	absent := false
 	for _, it := range c.Items {
 		if it.Base >= len(c.Bases) {
 			return nil
@@ -922,6 +927,10 @@ func dedupOracle(c dedupCase, quiet bool) error {
 				rr.Header().Name = s
 				escaped = true
 			}
+		}
+		if it.NoOwner {
+			rr.Header().Name = ""
+			absent = true
 		}
 		in = append(in, rr)
 	}
@@ -963,6 +972,10 @@ func dedupOracle(c dedupCase, quiet bool) error {
 		pbt.Note([]byte(strings.Join(keys, "\n")+fmt.Sprint(c.Items)), big, fmt.Sprintf("groups=%d", len(groups)), fmt.Sprintf("records=%d", min(len(in), 12)))
 		if shared {
 			pbt.Class("same-record-listed-twice")
+		}
+		if absent {
+			pbt.Class("owner-absent")
+			pbt.Sample("owner-absent", fmt.Sprintf("%q", in[len(in)-1].String()))
 		}
 		if escaped {
 			pbt.Class("owner-letter-escaped")
@@ -1038,6 +1051,15 @@ func genDedup(t *rapid.T) dedupCase {
 			it.UpperMask &^= it.EscMask
 			pbt.Excluded(idEscCase)
 		}
+		// a record whose owner was never set (the zero value of the header): its text starts with the tab
+		// in front of the TTL; texts identical up to the TTL are one group, another class is another text
+		if rapid.IntRange(0, 7).Draw(t, "noowner") == 0 {
+			if pbt.Known(idNoOwner) {
+				pbt.Excluded(idNoOwner)
+			} else {
+				it.NoOwner = true
+			}
+		}
 		c.Items = append(c.Items, it)
 	}
 	c.OwnMap = rapid.Bool().Draw(t, "ownmap")
@@ -1078,6 +1100,17 @@ func init() {
 		// \Abc. 5 IN A 192.0.2.1 and \abc. 7 IN A 192.0.2.1: one group (the texts differ in the case of one owner letter)
 		a := wm.Rec{Name: wm.MustName("abc."), Type: wm.TA, Class: 1, Fields: []wm.Field{{K: wm.IPv4, B: []byte{192, 0, 2, 1}}}}
 		return dedupOracle(dedupCase{Bases: []wm.Rec{a}, Items: []dedupItem{{Base: 0, TTL: 5, UpperMask: 1, EscMask: 1}, {Base: 0, TTL: 7, EscMask: 1}}}, true)
+	})
+	pbt.Probe(idNoOwner, func() error {
+		// "" 5 IN A 192.0.2.1 and "" 7 IN A 192.0.2.1: one group (the texts differ in the TTL only);
+		// "" 5 IN A 192.0.2.1 and "" 5 CH A 192.0.2.1: two groups (the texts differ in the class)
+		a := wm.Rec{Name: wm.MustName("abc."), Type: wm.TA, Class: 1, Fields: []wm.Field{{K: wm.IPv4, B: []byte{192, 0, 2, 1}}}}
+		ch := cloneRec(a)
+		ch.Class = 3
+		if err := dedupOracle(dedupCase{Bases: []wm.Rec{a}, Items: []dedupItem{{Base: 0, TTL: 5, NoOwner: true}, {Base: 0, TTL: 7, NoOwner: true}}}, true); err != nil {
+			return err
+		}
+		return dedupOracle(dedupCase{Bases: []wm.Rec{a, ch}, Items: []dedupItem{{Base: 0, TTL: 5, NoOwner: true}, {Base: 1, TTL: 5, NoOwner: true}}}, true)
 	})
 	pbt.Register(pbt.Sub[pairCase]{Name: "isduplicate", Weight: 20, Gen: genPair, Check: checkPair})
 	pbt.RegisterEnum(pbt.Enum[pairCase]{Name: "every-field-of-every-type", Exhaustive: true, Each: eachFieldChange, Check: checkPair})
